@@ -70,6 +70,16 @@ type incarnation struct {
 	fed       []uint64      // every index handed to this incarnation, in order
 	events    []incEvent    // entries and recover requests in queue order
 	noRecover map[uint64]bool
+	ended     bool
+	endAt     uint64 // applied index when the incarnation was crashed
+}
+
+// end is the applied index at which the incarnation stopped (so far).
+func (inc *incarnation) end() uint64 {
+	if inc.ended {
+		return inc.endAt
+	}
+	return inc.sm.GetLastApplied()
 }
 
 // incEvent is one thing queued for an incarnation: an entry (Index) or a
@@ -91,6 +101,10 @@ func (inc *incarnation) processed() (map[uint64]bool, uint64) {
 				applied = ev.Index
 			}
 			continue
+		}
+		if ev.Index > inc.end() {
+			// still queued when the incarnation was crashed
+			break
 		}
 		if ev.Index == applied+1 {
 			out[ev.Index] = true
@@ -128,6 +142,7 @@ type replica struct {
 	batch     []rsm.Task
 	apply     []sm.Entry
 	exports   int
+	pushed    uint64 // node.pushedIndex: highest index queued for the current incarnation
 }
 
 func newReplica(env *caseEnv, name string, replicaID uint64) *replica {
@@ -169,6 +184,7 @@ func (r *replica) start() {
 	r.cur = inc
 	r.doRecover(rsm.Task{Recover: true, Initial: true, NewNode: len(r.past) == 0})
 	inc.startAt = inc.sm.GetLastApplied()
+	r.pushed = inc.startAt
 }
 
 // restart ends the current incarnation (crash: nothing is closed) and starts
@@ -177,6 +193,8 @@ func (r *replica) restart(crashPos int) {
 	if r.store != nil {
 		r.store.crash(crashPos)
 	}
+	r.cur.endAt = r.cur.sm.GetLastApplied()
+	r.cur.ended = true
 	r.past = append(r.past, r.cur)
 	r.start()
 }
@@ -204,6 +222,9 @@ func (r *replica) add(ents []pb.Entry) {
 	for _, e := range ents {
 		r.cur.fed = append(r.cur.fed, e.Index)
 		r.cur.events = append(r.cur.events, incEvent{Index: e.Index})
+		if e.Index > r.pushed {
+			r.pushed = e.Index
+		}
 	}
 	r.cur.sm.TaskQ().Add(rsm.Task{Entries: cloneEntries(ents)})
 }
@@ -214,6 +235,9 @@ func (r *replica) addSave(req rsm.SSRequest) {
 
 func (r *replica) addRecover(index uint64) {
 	r.cur.events = append(r.cur.events, incEvent{Recover: true, Index: index})
+	if index > r.pushed {
+		r.pushed = index
+	}
 	r.cur.sm.TaskQ().Add(rsm.Task{Recover: true, Index: index})
 }
 
